@@ -338,6 +338,8 @@ func c17RequestRun(t *testing.T, tape *simrt.Tape, o simwork.Opts) *simwork.Resu
 
 	netMark := verifNetStart()
 	p := simwork.Bubble(t, func(t *testing.T) {
+		bubbleStart := time.Now()
+		defer func() { res.SimTime = time.Since(bubbleStart) }() // fake-clock time of the exchange (evidence only)
 		simnet.Reset()
 		c17ResetPools()
 		simnet.Configure(simnet.Config{Seed: uint64(c.NetSeed), MaxSegment: 2048, SmallPermil: 250, MaxLatency: 500 * time.Microsecond})
